@@ -362,6 +362,13 @@ let table_cases : (string * expr) list =
     "'s' ~ 't' starts with 's'", b BStartsWith (b BConcat (slit "s") (slit "t")) (slit "s");
     "'s' ~ 't' ends with 's' ~ 't'", b BEndsWith (b BConcat (slit "s") (slit "t")) (b BConcat (slit "s") (slit "t"));
     "1 + 2 in l", b BIn (b BAdd (i 1) (i 2)) (v "l");
+    "'10' < '9'", b BLt (slit "10") (slit "9");
+    "'10' >= '9'", b BGe (slit "10") (slit "9");
+    "num < '9'", b BLt (v "num") (slit "9");
+    "'-5' < '-10'", b BLt (slit "-5") (slit "-10");
+    "'10' > i5", b BGt (slit "10") (v "i5");
+    "i5 <= '10'", b BLe (v "i5") (slit "10");
+    "num ~ '0' > '13'", b BGt (b BConcat (v "num") (slit "0")) (slit "13");
     "1 + 2 in lng", b BIn (b BAdd (i 1) (i 2)) (v "lng");
     "6 / 2 in lng", b BIn (b BDiv (i 6) (i 2)) (v "lng");
     "i3 * 20 in lng", b BIn (b BMul (v "i3") (i 20)) (v "lng");
